@@ -23,13 +23,13 @@ type c10Case struct {
 	Logger string `json:"logger"` // builtin | sync | async | sync-filtered
 	Range  string `json:"range"`  // at | above | below
 	Hooks  int    `json:"hooks"`  // bit 0 TimeNow, 1 StringFromContext, 2 FieldsFromContext
-	Ctx    int    `json:"ctx"`    // 0 background, 1 with value, 2 cancelled with value
+	Ctx    int    `json:"ctx"`    // 0 background, 1 with value, 2 cancelled with value, 3 nil
 }
 
 func init() {
 	eps := entryPoints()
 	order := []string{"TRACE", "DEBUG", "INFO", "NOTICE", "WARN", "ERROR", "PANIC", "FATAL", "TOP"}
-	definePart("C10", "c10/hooks-product", "qt", "15 entry points x 4 serving loggers x 3 ranges x 8 hook subsets x 3 contexts (complete product)",
+	definePart("C10", "c10/hooks-product", "qt", "15 entry points x 4 serving loggers x 3 ranges x 8 hook subsets x 4 contexts incl. nil (complete product)",
 		func(tier string, yield func(c10Case)) {
 			for _, ep := range eps {
 				for _, lg := range []string{"builtin", "sync", "async", "sync-filtered"} {
@@ -38,7 +38,7 @@ func init() {
 							continue
 						}
 						for h := 0; h < 8; h++ {
-							for c := 0; c < 3; c++ {
+							for c := 0; c < 4; c++ {
 								yield(c10Case{ep.name, lg, r, h, c})
 							}
 						}
@@ -102,8 +102,11 @@ func init() {
 				}
 			}
 			var ctx context.Context = context.Background()
-			if c.Ctx >= 1 {
+			if c.Ctx == 1 || c.Ctx == 2 {
 				ctx = context.WithValue(ctx, ctxKey{}, "req-1")
+			}
+			if c.Ctx == 3 {
+				ctx = nil // callers do pass nil contexts; the hooks still have to run (they decide what to do with it)
 			}
 			if c.Ctx == 2 {
 				cc, cancel := context.WithCancel(ctx)
